@@ -8,7 +8,7 @@
    - url_mapper (src/url_mapper.cpp): template parsing, key tables with arity overloads, mounted
      children, key navigation (absolute, relative, dot, dot-dot, keyword parameters), parent walk.
    Bytes are N, strings are list N.  No proofs here. *)
-From Coq Require Import NArith List Bool.
+From Coq Require Import NArith ZArith List Bool.
 Import ListNotations.
 Local Open Scope N_scope.
 
@@ -224,7 +224,9 @@ Definition pat_match (p : pattern) (s : bytes) : option (list bytes) :=
 Definition grp (gs : list bytes) (k : nat) : bytes := nth k gs [].
 
 Inductive mfilter := MAny | MPat (e : re).
-Inductive hkind := KAssign | KMap.
+(* KAssign: url_dispatcher::assign (strings, no checks); KMap: url_dispatcher::map with std::string parameters;
+   KMapInt: url_dispatcher::map with int parameters (parse_url_parameter through an istream) *)
+Inductive hkind := KAssign | KMap | KMapInt.
 Inductive dopt :=
 | DH (k : hkind) (p : pattern) (mf : mfilter) (hid : N) (sel : list nat)
 | DM (p : pattern) (sel : nat) (kid : nat).
@@ -245,6 +247,49 @@ Inductive outcome := Fired (hid : N) (args : list bytes) | NotFound | Threw | Ba
 Definition latin1_ok (c : N) : bool :=
   (c =? 9) || (c =? 10) || (c =? 13) || negb ((c <? 32) || ((127 <=? c) && (c <? 160))).
 Definition valid_text (s : bytes) : bool := forallb latin1_ok s.
+
+(* parse_url_parameter(const_char_istream &, int &): `parameter >> value` must succeed and consume everything.
+   operator>>(int) in the classic locale: leading white space is skipped, an optional sign, at least one decimal
+   digit, the value must fit an int; nothing may follow the digits. *)
+Definition dec_digit (c : N) : bool := (48 <=? c) && (c <=? 57).
+Definition dec_val (s : bytes) : N := fold_left (fun acc c => acc * 10 + (c - 48)) s 0.
+Definition is_space (c : N) : bool := ((9 <=? c) && (c <=? 13)) || (c =? 32).
+Fixpoint skip_ws (s : bytes) : bytes :=
+  match s with [] => [] | c :: t => if is_space c then skip_ws t else s end.
+Definition parse_int (s : bytes) : option Z :=
+  let s1 := skip_ws s in
+  let '(neg, ds) := match s1 with
+                    | [] => (false, s1)
+                    | c :: t => if c =? 45 then (true, t) else if c =? 43 then (false, t) else (false, s1)
+                    end in
+  if is_nil ds then None
+  else if negb (forallb dec_digit ds) then None
+  else let v := Z.of_N (dec_val ds) in
+       let z := if neg then (- v)%Z else v in
+       if ((z <? -2147483648) || (2147483647 <? z))%Z then None else Some z.
+Fixpoint parse_ints (l : list bytes) : option (list Z) :=
+  match l with
+  | [] => Some []
+  | s :: r => match parse_int s, parse_ints r with Some z, Some zs => Some (z :: zs) | _, _ => None end
+  end.
+(* the harness prints an int argument in decimal *)
+Fixpoint digits (fuel : nat) (n : N) (acc : bytes) : bytes :=
+  match fuel with
+  | O => acc
+  | S f => let acc' := (48 + n mod 10) :: acc in if n / 10 =? 0 then acc' else digits f (n / 10) acc'
+  end.
+Definition show_int (z : Z) : bytes :=
+  if (z <? 0)%Z then 45 :: digits 12 (Z.to_N (- z)) [] else digits 12 (Z.to_N z) [].
+
+(* what the handler receives for the selected groups raw, or None = the option declines (returns false) *)
+Definition arg_conv (k : hkind) (raw : list bytes) : option (list bytes) :=
+  match k with
+  | KAssign => Some raw
+  | KMap => if forallb valid_text raw then Some raw else None
+  | KMapInt => if forallb valid_text raw then
+                 match parse_ints raw with Some zs => Some (map show_int zs) | None => None end
+               else None
+  end.
 
 Definition method_ok (mf : mfilter) (m : bytes) : bool :=
   match mf with MAny => true | MPat e => full_match e m end.
@@ -268,6 +313,20 @@ Definition try_opt (kd : list kid_fn) (o : dopt) (url : bytes) (c : ctx) : optio
             match pat_match p url with
             | Some gs => let args := map (grp gs) sel in
                          if forallb valid_text args then Some (Fired hid args) else None
+            | None => None
+            end
+          else None
+      end
+  | DH KMapInt p mf hid sel =>
+      match c with
+      | None => None
+      | Some m =>
+          if method_ok mf m then
+            match pat_match p url with
+            | Some gs => match arg_conv KMapInt (map (grp gs) sel) with
+                         | Some args => Some (Fired hid args)
+                         | None => None
+                         end
             | None => None
             end
           else None
@@ -563,10 +622,11 @@ Definition invalid_url : bytes :=
    114;97;116;101;100;95;98;121;95;117;114;108;95;109;97;112;112;101;114].
 (* what ends up in the output stream: None = exception propagated, stream untouched.  Without
    invalid_url_throws the url is first written to a stolen buffer and then copied to the stream with
-   operator<<(char const * ), which stops at the first NUL byte (src/url_mapper.cpp, real_map). *)
+   output.write(begin, end - begin): every byte of it, embedded NUL bytes included, exactly as in the
+   throwing configuration where data::map writes to the stream directly (src/url_mapper.cpp, real_map). *)
 Definition map_output (throws : bool) (r : res bytes) : option bytes :=
   match r with
-  | Ok u => Some (if throws then u else cstr u)
+  | Ok u => Some u
   | Err _ => if throws then None else Some invalid_url
   end.
 
@@ -689,3 +749,56 @@ Fixpoint rw_apply (rules : list rrule) (url : bytes) : bytes :=
 
 Definition mk_rule (p : pattern) (pat : bytes) (fin : bool) : option rrule :=
   match rw_parse pat with Some (parts, idx) => Some (RR p parts idx fin) | None => None end.
+
+(* ------------------------------------------------------------------------------------------ *)
+(* the embedded HTTP server front end (src/http_api.cpp process_request, src/http_context.cpp     *)
+(* on_headers_ready): rewrite, split off the query string, pick the script name, url-decode the   *)
+(* rest into PATH_INFO, look the application up in the pool, run its main                        *)
+(* ------------------------------------------------------------------------------------------ *)
+Definition hexval (c : N) : option N :=
+  if (48 <=? c) && (c <=? 57) then Some (c - 48)
+  else if (97 <=? c) && (c <=? 102) then Some (c - 87)
+  else if (65 <=? c) && (c <=? 70) then Some (c - 55)
+  else None.
+(* util::urldecode: plus -> blank, %XX -> byte, a percent sign not followed by two hex digits is dropped *)
+Fixpoint urldecode (s : bytes) : bytes :=
+  match s with
+  | [] => []
+  | c :: t =>
+      if c =? 43 then 32 :: urldecode t
+      else if c =? 37 then
+        match t with
+        | h1 :: h2 :: t' =>
+            match hexval h1, hexval h2 with
+            | Some a, Some b => (a * 16 + b) :: urldecode t'
+            | _, _ => urldecode t
+            end
+        | _ => urldecode t
+        end
+      else c :: urldecode t
+  end.
+(* http.script_names: the first configured name that is a prefix of the path ending at a component boundary *)
+Fixpoint pick_script (names : list bytes) (path : bytes) : bytes * bytes :=
+  match names with
+  | [] => ([], path)
+  | n :: r =>
+      match strip_prefix n path with
+      | Some rest => match rest with
+                     | [] => (n, rest)
+                     | c :: _ => if c =? 47 then (n, rest) else pick_script r path
+                     end
+      | None => pick_script r path
+      end
+  end.
+Inductive served := Bad400 | Served (r : routed).
+Definition serve (rules : list rrule) (names : list bytes) (pools : list (mpoint * app)) (host uri m : bytes) : served :=
+  let u := rw_apply rules uri in
+  match u with
+  | [] => Bad400
+  | c :: _ =>
+      if c =? 47 then
+        let (path, _) := cut_at 63 u in
+        let (sn, rest) := pick_script names path in
+        Served (route_request pools host sn (urldecode rest) m)
+      else Bad400
+  end.
